@@ -227,6 +227,132 @@ fn collision_sites(repo: &Path) -> Result<String, String> {
     Ok(out)
 }
 
+/// C07/C13: every table scan of the extractor (`src/extract.rs`: closures over
+/// `egglog_bridge::ScanEntry` handed to `backend.for_each`) skips subsumed rows: the closure body is
+/// a single `if !row.subsumed { .. }` without else. Also the frontend's rule-body lowering
+/// (`src/lib.rs` fn query): the subsumption constraint put on every table atom.
+fn subsume_guards(repo: &Path) -> Result<String, String> {
+    use quote::ToTokens;
+    let src = std::fs::read_to_string(repo.join("src/extract.rs")).map_err(|e| e.to_string())?;
+    let file = syn::parse_file(&src).map_err(|e| e.to_string())?;
+    struct V {
+        cur_fn: String,
+        scans: Vec<(String, String, bool)>,
+        calls: Vec<(String, String)>,
+    }
+    impl<'ast> Visit<'ast> for V {
+        fn visit_impl_item_fn(&mut self, f: &'ast syn::ImplItemFn) {
+            let saved = std::mem::replace(&mut self.cur_fn, f.sig.ident.to_string());
+            syn::visit::visit_impl_item_fn(self, f);
+            self.cur_fn = saved;
+        }
+        fn visit_expr_method_call(&mut self, c: &'ast syn::ExprMethodCall) {
+            if (c.method == "for_each" || c.method == "for_each_while")
+                && c.receiver.to_token_stream().to_string().replace(' ', "").ends_with("backend")
+            {
+                let arg = match c.args.last() {
+                    Some(syn::Expr::Path(p)) => p.to_token_stream().to_string(),
+                    Some(syn::Expr::Closure(_)) => "<inline>".to_string(),
+                    _ => "<other>".to_string(),
+                };
+                self.calls.push((self.cur_fn.clone(), arg));
+            }
+            syn::visit::visit_expr_method_call(self, c);
+        }
+        fn visit_local(&mut self, l: &'ast syn::Local) {
+            if let (syn::Pat::Ident(pi), Some(init)) = (&l.pat, &l.init) {
+                if let syn::Expr::Closure(cl) = &*init.expr {
+                    let is_scan = cl.inputs.iter().any(|p| p.to_token_stream().to_string().contains("ScanEntry"));
+                    if is_scan {
+                        let pname = match cl.inputs.first() {
+                            Some(syn::Pat::Type(pt)) => pt.pat.to_token_stream().to_string(),
+                            Some(p) => p.to_token_stream().to_string(),
+                            None => String::new(),
+                        };
+                        let want = format!("!{pname}.subsumed");
+                        let guarded = match &*cl.body {
+                            syn::Expr::Block(b) if b.block.stmts.len() == 1 => match &b.block.stmts[0] {
+                                syn::Stmt::Expr(syn::Expr::If(i), _) => {
+                                    i.else_branch.is_none() && i.cond.to_token_stream().to_string().replace(' ', "") == want
+                                }
+                                _ => false,
+                            },
+                            _ => false,
+                        };
+                        self.scans.push((self.cur_fn.clone(), pi.ident.to_string(), guarded));
+                    }
+                }
+            }
+            syn::visit::visit_local(self, l);
+        }
+    }
+    let mut v = V { cur_fn: String::new(), scans: vec![], calls: vec![] };
+    v.visit_file(&file);
+    let mut out = String::from("(* src/extract.rs: scan closures over table rows (fn, closure, body is `if !row.subsumed { .. }`) *)\nDefinition extract_scans : list (string * string * bool) := [");
+    out.push_str(&v.scans.iter().map(|(f, c, g)| format!("(\"{f}\"%string, \"{c}\"%string, {g})")).collect::<Vec<_>>().join("; "));
+    out.push_str("].\n");
+    out.push_str("(* src/extract.rs: every scan of a backend table (fn, closure handed to for_each / for_each_while) *)\nDefinition extract_for_each_calls : list (string * string) := [");
+    out.push_str(&v.calls.iter().map(|(f, a)| format!("(\"{f}\"%string, \"{a}\"%string)")).collect::<Vec<_>>().join("; "));
+    out.push_str("].\n");
+
+    // frontend lowering of rule bodies
+    let src2 = std::fs::read_to_string(repo.join("src/lib.rs")).map_err(|e| e.to_string())?;
+    let file2 = syn::parse_file(&src2).map_err(|e| e.to_string())?;
+    // the `fn query` that takes `include_subsumed`
+    struct Q {
+        found: Option<syn::Block>,
+    }
+    impl<'ast> Visit<'ast> for Q {
+        fn visit_impl_item_fn(&mut self, f: &'ast syn::ImplItemFn) {
+            if self.found.is_none() && f.sig.ident == "query" && f.sig.inputs.to_token_stream().to_string().contains("include_subsumed") {
+                self.found = Some(f.block.clone());
+            }
+            syn::visit::visit_impl_item_fn(self, f);
+        }
+    }
+    let mut q = Q { found: None };
+    q.visit_file(&file2);
+    let body = q.found.ok_or("fn query(.., include_subsumed) not found in src/lib.rs")?;
+    struct M {
+        arms: Vec<(String, String)>,
+        query_table_args: Vec<String>,
+    }
+    impl<'ast> Visit<'ast> for M {
+        fn visit_expr_match(&mut self, m: &'ast syn::ExprMatch) {
+            if m.expr.to_token_stream().to_string() == "include_subsumed" {
+                for a in &m.arms {
+                    self.arms.push((a.pat.to_token_stream().to_string(), a.body.to_token_stream().to_string().replace(' ', "")));
+                }
+            }
+            syn::visit::visit_expr_match(self, m);
+        }
+        fn visit_expr_method_call(&mut self, c: &'ast syn::ExprMethodCall) {
+            if c.method == "query_table" {
+                if let Some(a) = c.args.last() {
+                    self.query_table_args.push(a.to_token_stream().to_string());
+                }
+            }
+            syn::visit::visit_expr_method_call(self, c);
+        }
+    }
+    let mut m = M { arms: vec![], query_table_args: vec![] };
+    m.visit_block(&body);
+    let arm = |k: &str| m.arms.iter().find(|(p, _)| p == k).map(|(_, b)| b.clone());
+    let tr = |b: Option<String>| match b.as_deref() {
+        Some("None") => "SubAny",
+        Some("Some(false)") => "SubOnlyLive",
+        Some("Some(true)") => "SubOnlySubsumed",
+        _ => "SubUnknown",
+    };
+    if m.query_table_args.len() != 1 {
+        return Err(format!("expected one query_table call in fn query, found {:?}", m.query_table_args));
+    }
+    out.push_str("(* src/lib.rs fn query: the subsumption constraint on every table atom of a rule body *)\nInductive sub_constraint := SubAny | SubOnlyLive | SubOnlySubsumed | SubUnknown.\n");
+    out.push_str(&format!("Definition query_subsumed_default : sub_constraint := {}.\nDefinition query_subsumed_when_included : sub_constraint := {}.\n", tr(arm("false")), tr(arm("true"))));
+    out.push_str(&format!("Definition query_table_passes_flag : bool := {}.\n", m.query_table_args[0] == "is_subsumed"));
+    Ok(out)
+}
+
 /// C20: inventory of hash-container aliases (with their hashers) and of files that use the
 /// randomly seeded `std::collections::Hash{Map,Set}` / `RandomState` in non-test code.
 fn hash_inventory(repo: &Path) -> Result<String, String> {
@@ -411,6 +537,17 @@ pub fn generate(repo: &Path) -> (String, Vec<String>) {
         Err(e) => {
             out.push_str(&format!("(* collision_sites FAILED: {} *)\n", e.replace("*)", "* )")));
             rep.push(format!("{{\"item\":\"Facts.collision_sites\",\"file\":\"core-relations/src/table/mod.rs\",\"ok\":false,\"error\":{:?}}}", e));
+        }
+    }
+    match subsume_guards(repo) {
+        Ok(t) => {
+            out.push_str("\n");
+            out.push_str(&t);
+            rep.push("{\"item\":\"Facts.subsume_guards\",\"file\":\"src/extract.rs + src/lib.rs\",\"ok\":true}".to_string());
+        }
+        Err(e) => {
+            out.push_str(&format!("(* subsume_guards FAILED: {} *)\n", e.replace("*)", "* )")));
+            rep.push(format!("{{\"item\":\"Facts.subsume_guards\",\"file\":\"src/extract.rs + src/lib.rs\",\"ok\":false,\"error\":{:?}}}", e));
         }
     }
     (out, rep)
